@@ -343,6 +343,7 @@ def run_case(case, confirm=False, sample_vc=False):
     skipped = 0
     err = None
     sample = None
+    sym.CASE_DEADLINE[0] = time.time() + sym.CASE_BUDGET_S
     try:
         for pr in sym.explore(_guarded(case)):
             npaths += 1
